@@ -163,6 +163,12 @@ def decode (n : String) (s : σ) : Out (TVal × σ) :=
 
 end
 
+/-- one field of `T::default()`: the declared default, else `Default::default()` of a non-optional field. -/
+def dfltEntry (z : STy → TVal) (fl : Field) : Option (Int × TVal) :=
+  match fl.dflt with
+  | some dv => some (fl.id, dv)
+  | none => if fl.required then some (fl.id, z fl.ty) else none
+
 /-- `T::default()` re-encoded (plugin/mod.rs `ImplDefaultPlugin`): declared defaults, `Default::default()`
 for the other non-optional fields. -/
 def zeroOf (d : Doc) : Nat → STy → TVal
@@ -176,10 +182,7 @@ def zeroOf (d : Doc) : Nat → STy → TVal
     | some .enum => .i32 0
     | some (.typedef t) => zeroOf d f t
     | some (.union ((id, t) :: _)) => .struct (.cons id (zeroOf d f t) .nil)
-    | some (.struct fs) => .struct (TFields.ofList (fs.filterMap fun fl =>
-        match fl.dflt with
-        | some dv => some (fl.id, dv)
-        | none => if fl.required then some (fl.id, zeroOf d f fl.ty) else none))
+    | some (.struct fs) => .struct (TFields.ofList (fs.filterMap (dfltEntry (zeroOf d f))))
     | _ => .struct .nil
 
 def defaultOf (d : Doc) (n : String) : TVal := zeroOf d (d.length + 2) (.ref n)
